@@ -781,6 +781,9 @@ pub fn crash_verdict(t: &Trace, states: &States, acks: &[(u64, u64)], cut: u64, 
     if line.contains("PART-BROKEN") {
         return format!("FAIL after-recovery-a-data-block-is-neither-free-nor-owned-or-is-both {}", line.split("PART-BROKEN").nth(1).unwrap_or("").trim());
     }
+    if line.contains("ACCT-BROKEN-DISK") {
+        return format!("FAIL disk-usage-counter-after-recovery-differs-from-the-live-records-extents {}", line.split("ACCT-BROKEN-DISK").nth(1).unwrap_or("").split(" ACCT-BROKEN").next().unwrap_or("").trim().replace(' ', "_"));
+    }
     if line.contains("ACCT-BROKEN") {
         return format!("FAIL memory-usage-after-recovery-differs-from-the-live-records {}", line.split("ACCT-BROKEN").nth(1).unwrap_or("").split(" keys=").next().unwrap_or(""));
     }
